@@ -50,7 +50,7 @@ func c02() {
 	var jobs []job
 	operands := append([]uint64{}, vlib.BoundaryValues...)
 	r0 := caseRand(run, 0)
-	for i := 0; i < run.N(10, 400); i++ {
+	for i := 0; i < run.N(100, 1000); i++ {
 		operands = append(operands, r0.Uint64(), uint64(r0.Uint32()), uint64(r0.Uint32())<<32)
 	}
 	for _, op := range vlib.AllOps {
@@ -196,7 +196,7 @@ func c02KernelTier(run *vlib.Run, ts []*vlib.Target) {
 		return
 	}
 	st := &kernelStats{outcomes: map[string]int64{}, perABI: map[string]int64{}, shapes: map[string]bool{}}
-	n := run.N(96, 3000)
+	n := run.N(288, 6000)
 	vlib.Parallel(n, func(i int) {
 		r := caseRand(run, 2000000+i)
 		goarch := "amd64"
